@@ -146,6 +146,9 @@ class Stream:
                 I = gen_layered(r, nvars=r.range(2, 4), per_layer=2, dom_max=2, dominance=0)
             elif kind == 2 and not stores:
                 I = gen_chain(r, nvars=r.range(4, 6), per_layer=r.range(3, 5), dom_max=r.range(1, 3))    # merge result is a real state: recycling
+            elif stores and longarcs and i % 2 == 0:
+                # long arcs WITH shared stores (pooled flavour only): nodes below a long arc must consult the cache under their layer's depth
+                I = gen_layered(r, nvars=r.range(4, 6), per_layer=r.range(2, 4), dom_max=2, depth_free=True, irrelevance=True, dominance=0)
             elif stores and i % 4 == 3:
                 I = gen_topmerge(r)
             elif stores:
